@@ -420,10 +420,17 @@ fn gen_tree(t: &mut Tape, state: usize, nq: usize, max_depth: usize, protect: us
     let quoted = !t.chance(0.3);
     // number of internal nodes
     let max_nodes = (1usize << max_depth) - 1;
-    let n_internal = match t.weighted(&[2, 3, 3]) {
+    // rare: a long chain (one leaf per node), deeper than any balanced tree of the same size -
+    // real voices have strongly unbalanced trees (the bundled voice reaches depth 23)
+    let mut chain = false;
+    let n_internal = match t.weighted(&[8, 12, 12, if max_depth >= 3 && nq > 0 { 1 } else { 0 }]) {
         0 => 0,
         1 => t.urange(1, 3.min(max_nodes)),
-        _ => t.urange(1, max_nodes.min(12)),
+        2 => t.urange(1, max_nodes.min(12)),
+        _ => {
+            chain = true;
+            if t.chance(0.5) { t.urange(33, 48) } else { t.urange(13, 40) }
+        }
     };
     if n_internal == 0 || nq == 0 {
         let npdf = t.urange(1, 3);
@@ -439,6 +446,15 @@ fn gen_tree(t: &mut Tape, state: usize, nq: usize, max_depth: usize, protect: us
     }
     let mut nodes = vec![N { children: [None, None], depth: 1 }];
     let mut open: Vec<(usize, usize)> = vec![(0, 0), (0, 1)];
+    if chain {
+        open.clear();
+        for i in 0..n_internal - 1 {
+            // the chain mostly continues on the "no" side, which most labels take
+            let side = if t.chance(0.8) { 0 } else { 1 };
+            nodes.push(N { children: [None, None], depth: i + 2 });
+            nodes[i].children[side] = Some(i + 1);
+        }
+    }
     while nodes.len() < n_internal && !open.is_empty() {
         let k = t.below(open.len());
         let (p, side) = open.remove(k);
@@ -472,6 +488,7 @@ fn gen_tree(t: &mut Tape, state: usize, nq: usize, max_depth: usize, protect: us
         cur -= id_step;
         *id = cur;
     }
+    let chain_yes_side: Vec<bool> = if chain { (0..nq).map(|_| t.chance(0.1)).collect() } else { vec![] };
     let mut specs = Vec::with_capacity(n);
     for node in nodes.iter() {
         let mut ch = |c: Option<usize>| match c {
@@ -482,9 +499,20 @@ fn gen_tree(t: &mut Tape, state: usize, nq: usize, max_depth: usize, protect: us
                 Child::Pdf(p)
             }
         };
-        let no = ch(node.children[0]);
-        let yes = ch(node.children[1]);
-        specs.push(NodeSpec { id: 0, question: t.below(nq), no, yes });
+        let mut no = ch(node.children[0]);
+        let mut yes = ch(node.children[1]);
+        let question = t.below(nq);
+        if chain {
+            // keep the chain walkable: every question continues on one fixed side wherever it is
+            // asked (mostly "no", the answer most labels give to a specific question)
+            let want_yes = chain_yes_side[question];
+            let cont_is_yes = matches!(yes, Child::Node(_));
+            let has_cont = cont_is_yes || matches!(no, Child::Node(_));
+            if has_cont && cont_is_yes != want_yes {
+                std::mem::swap(&mut no, &mut yes);
+            }
+        }
+        specs.push(NodeSpec { id: 0, question, no, yes });
     }
     for (s, id) in specs.iter_mut().zip(&ids) {
         s.id = *id;
@@ -674,10 +702,12 @@ pub fn gen_voice(t: &mut Tape, o: GenOpts) -> VoiceSpec {
         for w in 0..lnw {
             v[lnw + w] = if w == 0 { t.log_uniform(0.001, 0.1) as f32 } else { t.log_uniform(1e-4, 0.02) as f32 };
         }
-        v[2 * lnw] = match t.weighted(&[3, 2, 3]) {
+        v[2 * lnw] = match t.weighted(&[6, 4, 6, 1, 1]) {
             0 => 0.95,
             1 => 0.05,
-            _ => t.unit() as f32,
+            2 => t.unit() as f32,
+            3 => 0.0,
+            _ => 1.0,
         };
         v
     });
